@@ -1,6 +1,7 @@
 import PSO.Proofs.RaftDemo
 import PSO.Proofs.NodeTickMonotone
 import PSO.Proofs.NodeTickBridge
+import PSO.Proofs.BridgeTheorems
 
 /-!
 # C04 — committed positions are majority-backed and never change; indices only advance
@@ -86,6 +87,26 @@ theorem tick_commit_advance_is_guarded (s : PSO.NodeTick.NodeState)
     PSO.NodeTick.termAt s.log (PSO.NodeTick.nextCommit s) = some s.term ∧ s.commit < PSO.NodeTick.nextCommit s :=
   let r := PSO.NodeTick.nextCommit_spec s h
   ⟨r.1, r.2.1, r.2.2.1⟩
+
+/-! ## The handler-level models refine the cluster model (statements: notes/bridge.md) -/
+
+/-- Leader commit loop of `_onTick` ⊑ `advanceCommit` (guard holds, same new commit position). -/
+theorem tick_commit_refines : type_of% @PSO.Bridge.tick_commit_refines := @PSO.Bridge.tick_commit_refines
+
+/-- `next_node_idx` handler ⊑ `recvAck` (a success reply of the current term raises the match position). -/
+theorem ack_handler_refines : type_of% @PSO.Bridge.onNextNodeIdx_refines := @PSO.Bridge.onNextNodeIdx_refines
+
+/-- A reply of another term is ignored by handler and model alike. -/
+theorem ack_of_other_term_ignored : type_of% @PSO.Bridge.onNextNodeIdx_other_term :=
+  @PSO.Bridge.onNextNodeIdx_other_term
+
+/-- The whole tick (election, commit, fallback, applies) is a run of model actions. -/
+theorem tick_refines : type_of% @PSO.Bridge.tick_refines := @PSO.Bridge.tick_refines
+
+/-- Every batch / chunk burst of the send loop is an enabled `sendAppend` producing exactly that message
+(also for any wall-clock cut-off and any disconnect point). -/
+theorem send_loop_refines : type_of% @PSO.Bridge.sendRun_refines := @PSO.Bridge.sendRun_refines
+theorem send_loop_cut_refines : type_of% @PSO.Bridge.sendRun_cut_refines := @PSO.Bridge.sendRun_cut_refines
 
 /-- Non-vacuity: in the demo run nodes 0 and 1 report positions 0..2 committed, node 2 nothing. -/
 example : ∃ s, Reachable 3 s ∧ (s.nodes 0).commit = 2 ∧ (s.nodes 1).commit = 2 ∧ (s.nodes 2).commit = 0 := by
